@@ -2283,10 +2283,19 @@ __make_evrdat(echs_event_t e, const echs_instant_t *d, size_t nd)
 		}
 		/* now sort */
 		echs_instant_sort(rd, nd);
-		/* now spread out the instants as echs events */
-		for (size_t i = 0U; i < nd; i++) {
-			e.from = echs_instant_rescale(rd[i], cal);
-			res->ev[i] = e;
+		/* now spread out the instants as echs events, it's a set
+		 * so instants listed more than once count once,
+		 * RD sits at the far end of EV, the write index can't
+		 * overtake the read index */
+		with (size_t j = 0U) {
+			for (size_t i = 0U; i < nd; i++) {
+				if (i && echs_instant_eq_p(rd[i], rd[i - 1U])) {
+					continue;
+				}
+				e.from = echs_instant_rescale(rd[i], cal);
+				res->ev[j++] = e;
+			}
+			nd = j;
 		}
 	}
 	/* just the rest of the book-keeping */
